@@ -39,7 +39,8 @@ LEVEL_TEXT = ('Every nesting up to the depth bound is built by the real '
               'cross-call object identities are compared with the reference.')
 LEVEL_NOTE = ('Trusted: the reference evaluator in this file, vfx recording '
               'callables. Bounds: depth 2 in two slots + depth 3 in one slot, '
-              'call sequences <= 2 (quick) / 3 (thorough).')
+              'call sequences <= 2 (quick) / 3 for values of depth <= 2 '
+              '(thorough).')
 
 
 def bounds(tier):
@@ -72,6 +73,10 @@ def gen(depth, af_ok=True, kinds=KINDS):
       child_af_ok = True
     for v in gen(depth - 1, child_af_ok, kinds):
       yield (k, v)
+
+
+def _depth(spec):
+  return 0 if spec[0] == 'leaf' else 1 + _depth(spec[1])
 
 
 def contains(spec, kind):
@@ -457,7 +462,9 @@ def run_unit(unit, tier, seed):
         s2 != 'same' and (contains(s2, 'af') or contains(s2, 'cfg'))):
       res.nontrivial += 1
     case = {'form': form, 's1': s1, 's2': s2}
-    check_case(form, s1, s2, b['calls'], res, case)
+    shallow = _depth(s1) <= 2 and (s2 == 'same' or _depth(s2) <= 2)
+    check_case(form, s1, s2, b['calls'] if shallow else min(b['calls'], 2),
+               res, case)
     if idx % 4001 == 0:
       res.sample({'form': form, 'x': s1, 'y': s2,
                   'config': repr(make_root(form, s1, s2))[:200]})
